@@ -208,12 +208,12 @@ CHECKS['C04'] = {
     'verus_units': ['aggregate', 'aggdispatch', 'aggresult', 'converter'],
     'clause_prefixes': ['c04', 'value.modify', 'value.map-numeric', 'value.default'],
     'technique': 'contract-based deductive verification (Verus): GroupAggregator::default / update (all arms) / is_null, ensure_sum_fits and Value::modify_same_type_numeric_nullable / map_numeric extracted from /repo against step functions written from the property text',
-    'claim': 'Proof (fold kernel and per-group dispatch) for all states and values that one update step of each running aggregate is exactly the documented step and that update_aggregate folds a row into the cell of ITS group and aggregate index only (get_group: an existing cell is returned as it is, the default is computed only for a missing cell; COUNT / COUNT(DISTINCT) add one exactly for qualifying rows; MIN / MAX by value order; NULL arguments never wipe an accumulated value; ARRAY_AGG appends in arrival order; STRING_AGG joins with the delimiter); execute_update leaves the state untouched for rows that fail WHERE. Step level: SUM / AVG / STDDEV-VARIANCE bookkeeping add the value exactly or report an error (never wrap), the first value only initialises, AVG shows sum/count, PERCENTILE collects every value, BOOL_AND / BOOL_OR combine two-valued, COUNT(DISTINCT) counts a value only at its first occurrence; the unimplemented!() arms of default are unreachable under its precondition. Result path (unit aggresult): extract_result_rows_by_column builds one named column per select-list aggregate with exactly one value per group in key order, each taken from that group (its key component, or its own cell through the select-list expression; COUNT 0 / NULL when no row of the group qualified), and execute_result zips the columns position by position into rows, applies HAVING per group and DISTINCT among the kept rows. Known findings: a group none of whose aggregates got a qualifying row (COUNT(c), STRING_AGG(c) with c NULL throughout) is missing from the result. update_aggregates (unit aggdispatch): the group key of a row is the values of its GROUP BY expressions on that row (map_result_vec is verified: one result per element in order, or an error), a row without a key is an error that aggregates nothing, and every select-list aggregate is dispatched exactly once, in order, under its own index for that key (fold_select_list); a group-key column is validated against the GROUP BY list on every admitted row (validate_group_key, the GroupKey arm); execute_update folds exactly the rows that pass WHERE. PERCENTILE (update_value) shows the value at rank min(floor(p*n), n-1) of the sorted values of the group, never one past the end, and the refresh of a shown cell overwrites exactly that cell. HAVING (accept_group) is evaluated on the group\'s own key parts (by GROUP BY position) and its own cells (select-list count + j; COUNT 0 / NULL when missing), and an aggregate inside an expression (evaluate, Aggregate arm) denotes exactly the value bound under its name. Lowering (unit converter): transform_call_aggregate maps each aggregate name to its aggregate over the lowered argument, COUNT takes nothing, * or one column, and a wrong number of arguments or an unknown name is an error; transform_aggregate allows one aggregate per select-list entry and turns an entry without aggregate into a group-key column; create_aggregate_statement keeps the entries in order under their indices. NOT decided: the HAVING aggregates inside update_aggregates (closure over &mut self, stubbed), extract_having_aggregates (visitor closure), and that the dispatch match of update_aggregate selects the proved arm.',
+    'claim': 'Proof (fold kernel and per-group dispatch) for all states and values that one update step of each running aggregate is exactly the documented step and that update_aggregate folds a row into the cell of ITS group and aggregate index only (get_group: an existing cell is returned as it is, the default is computed only for a missing cell; COUNT / COUNT(DISTINCT) add one exactly for qualifying rows; MIN / MAX by value order; NULL arguments never wipe an accumulated value; ARRAY_AGG appends in arrival order; STRING_AGG joins with the delimiter); execute_update leaves the state untouched for rows that fail WHERE. Step level: SUM / AVG / STDDEV-VARIANCE bookkeeping add the value exactly or report an error (never wrap), the first value only initialises, AVG shows sum/count, PERCENTILE collects every value, BOOL_AND / BOOL_OR combine two-valued, COUNT(DISTINCT) counts a value only at its first occurrence; the unimplemented!() arms of default are unreachable under its precondition. Result path (unit aggresult): extract_result_rows_by_column builds one named column per select-list aggregate with exactly one value per group in key order, each taken from that group (its key component, or its own cell through the select-list expression; COUNT 0 / NULL when no row of the group qualified), and execute_result zips the columns position by position into rows, applies HAVING per group and DISTINCT among the kept rows. Known findings: a group none of whose aggregates got a qualifying row (COUNT(c), STRING_AGG(c) with c NULL throughout) is missing from the result. update_aggregates (unit aggdispatch): the group key of a row is the values of its GROUP BY expressions on that row (map_result_vec is verified: one result per element in order, or an error), a row without a key is an error that aggregates nothing, and every select-list aggregate is dispatched exactly once, in order, under its own index for that key (fold_select_list); a group-key column is validated against the GROUP BY list on every admitted row (validate_group_key, the GroupKey arm); the dispatching match of update_aggregate hands every aggregate to the arm that was proved for it (rule E3e); execute_update folds exactly the rows that pass WHERE. PERCENTILE (update_value) shows the value at rank min(floor(p*n), n-1) of the sorted values of the group, never one past the end, and the refresh of a shown cell overwrites exactly that cell. HAVING (accept_group) is evaluated on the group\'s own key parts (by GROUP BY position) and its own cells (select-list count + j; COUNT 0 / NULL when missing), and an aggregate inside an expression (evaluate, Aggregate arm) denotes exactly the value bound under its name. Lowering (unit converter): transform_call_aggregate maps each aggregate name to its aggregate over the lowered argument, COUNT takes nothing, * or one column, and a wrong number of arguments or an unknown name is an error; transform_aggregate allows one aggregate per select-list entry and turns an entry without aggregate into a group-key column; create_aggregate_statement keeps the entries in order under their indices. NOT decided: the HAVING aggregates inside update_aggregates (closure over &mut self, stubbed), extract_having_aggregates (visitor closure).',
     'note': 'Trusted: HashSet<Value> as a set under Value equality (VValueSet), f64 arithmetic and chrono Duration arithmetic as uninterpreted functions, the variance formula closure and the INTERVAL squaring closure are stubbed (assumed). The IEEE product and the float-to-usize cast of the PERCENTILE rank are an uninterpreted function (percentile_position).',
     'level': 'proof',
     'explanation': 'sum_step etc. are the semantic steps; C15 lemmas lift them to order-insensitivity.',
     'trusted': COMMON_TRUST + ['std HashSet<Value> / BTreeMap / HashMap behaviour', 'float and interval arithmetic uninterpreted'],
-    'unproved': ['HAVING aggregates in update_aggregates (visit closure, stubbed branch)', 'extract_having_aggregates (visitor closure)', 'update_aggregate as a whole is linked to its arms only by reading (dispatch match is not extracted)', 'Vec<Value>::sort (sorted permutation stand-in)', 'iter_mut loop headers of execute_result'],
+    'unproved': ['HAVING aggregates in update_aggregates (visit closure, stubbed branch)', 'extract_having_aggregates (visitor closure)', 'Vec<Value>::sort (sorted permutation stand-in)', 'iter_mut loop headers of execute_result'],
 }
 CHECKS['C15'] = {
     'verus_units': ['aggregate', 'aggdispatch'],
